@@ -885,6 +885,6 @@ META = dict(
         "to 1 and a coincident SV wins by concat order + last(), and every fill/diff acts on an offset-sorted frame; "
         "sv_normalize copies the tempo frame (one row per tempo point), sets multiplier = reference / bpm and projects "
         "onto the SV list's declared columns, which the tempo frame can provide; both functions take the override as "
-        "the reference when given."),
+        "the reference when given. The multiplier is computed on the working frame's own labels (a renumbered frame combined with a label-carrying column of the list is misaligned, R3)."),
     not_decided="arg-max ties between bpm values with equal total time, numeric values",
 )
